@@ -777,6 +777,7 @@ class Reaction:
         if phases:
             H_latent = np.zeros_like(stoichiometry)
             for i, phase in enumerate(self.phases):
+                phase = phase.lower() # 'L' and 'S' (second liquid and solid phases) are the same state of matter as 'l' and 's'
                 for j, chemical in enumerate(chemicals):
                     phase_ref = chemical.phase_ref
                     if phase_ref != phase and stoichiometry[i, j] != 0.:
